@@ -50,6 +50,8 @@ def run(ck: Checker):
     check_pairing(ck, 'C11-4', mod)
     check_reenter(ck, 'C11-5', mod)
     check_sentinels(ck, 'C11-6')
+    ck.rule('C11-7', 'fail before the handshake or inside the guarded region: after Worker.run has reported a successful initialisation, everything the worker executes lies inside the try of Worker.start whose handler broadcasts the end sentinel and re-raises — a set-up step that can fail outside it lets __enter__ return with a dead worker (EXITS)', minimum=2)
+    check_guarded_after_handshake(ck, 'C11-7')
 
 
 # ----------------------------------------------------------------------
@@ -466,3 +468,56 @@ def check_sentinels(ck: Checker, rid: str):
             ck.ob(rid, f, t.ast, not probs, '; '.join(probs) if probs else f'on the sentinel: forwards it to {sorted(required) or "nothing (none required)"} and leaves the loop')
             break
         ck.need(done, f'{f.key}: the dequeued value is never tested `is None`')
+
+
+def check_guarded_after_handshake(ck: Checker, rid: str):
+    mod = ck.repo.module(WORKER)
+    # (a) Worker.run: after the successful handshake the only thing left is the call of start()
+    run_ = mod.func('Worker.run')
+
+    def any_call(node):
+        a = header_expr(node)
+        return {'Exception'} if a is not None and calls_in(a) else set()
+
+    cfg = build_cfg(run_, ck.repo, any_call)
+    ck.analysed_func(run_, cfg)
+    puts = [n for n in cfg.nodes if header_expr(n) is not None and any(method_of(c)[1] == 'put' and c.args and not is_none(c.args[0]) for c in calls_in(header_expr(n)))]
+    ck.need(puts, f'{run_.key}: the handshake put of a successful initialisation was not found')
+    hs = puts[-1]
+    after = [cfg.nodes[i] for i in reachable(cfg, [e.dst for e in cfg.normal_succ(hs.id)]) if i not in (cfg.exit_return, cfg.exit_raise)]
+    calls_after = [n for n in after if header_expr(n) is not None and calls_in(header_expr(n))]
+    ok = len(calls_after) == 1 and any(method_of(c)[1] == 'start' for c in calls_in(header_expr(calls_after[0])))
+    ck.ob(rid, run_, hs.ast, ok, 'after the handshake Worker.run only calls start()' if ok else f'after the handshake Worker.run executes {[norm_text(n.ast)[:40] for n in calls_after]}: a failure there is not reported to the servlet that is waiting in start()')
+    # (b) Worker.start: every call outside the handlers is inside the try whose handlers broadcast the sentinel
+    st = mod.func('Worker.start')
+    cfg = build_cfg(st, ck.repo, any_call)
+    ck.analysed_func(st, cfg)
+    handlers = [n for n in cfg.nodes if n.kind == 'except']
+    ck.need(handlers, f'{st.key}: no exception handler')
+    in_handlers = set()
+    for h in handlers:
+        in_handlers |= reachable(cfg, [h.id])
+    probs = []
+    guarded = {n.id for n in cfg.nodes if any(e.kind == 'exc' and cfg.nodes[e.dst].kind == 'except' for e in cfg.succ[n.id])}
+    for n in cfg.nodes:
+        if n.id in in_handlers or n.pending is not None or header_expr(n) is None or not calls_in(header_expr(n)):
+            continue
+        if n.id not in reachable(cfg, [cfg.entry], edge_ok=lambda e: not e.is_exc):
+            continue
+        # set-up steps: calls from which the guarded service loops are still to come (what runs after the loops ended
+        # normally -- the final cleanup -- is tear-down, the sentinel has been forwarded by then)
+        if not (reachable(cfg, [e.dst for e in cfg.normal_succ(n.id)], edge_ok=lambda e: not e.is_exc) & guarded):
+            continue
+        for e in cfg.succ[n.id]:
+            if e.kind == 'exc' and cfg.nodes[e.dst].kind != 'except':
+                probs.append(f'L{n.lineno}: `{norm_text(n.ast)[:50]}` runs outside the guarded region of start(): if it fails, the worker dies after it has reported a successful start — no sentinel is broadcast, __enter__ has already returned (or returns) normally, and the error only surfaces at exit')
+    # the catch-all handler forwards the sentinel on both queues and re-raises
+    ca = [h for h in handlers if h.ast.type is not None and 'BaseException' in norm_text(h.ast.type)]
+    if not ca:
+        probs.append('start() has no catch-all handler')
+    else:
+        body = [cfg.nodes[i] for i in reachable(cfg, [ca[0].id])]
+        nput = sum(1 for k in body if header_expr(k) is not None and any(method_of(c)[1] == 'put' and c.args and is_none(c.args[0]) for c in calls_in(header_expr(k))))
+        if nput < 2:
+            probs.append('the catch-all handler of start() does not put the end sentinel on both queues')
+    ck.ob(rid, st, (st.node.lineno, 'guarded region'), not probs, '; '.join(sorted(set(probs))) if probs else 'every call of start() lies inside the try whose handlers broadcast the end sentinel (and re-raise)')
